@@ -512,4 +512,4 @@ PROP = Prop(
                  "for the wiring"],
 )
 
-RULE_EXTRA = ('objects of a user subclass of Scores that adds / redefines a metric (names resolve on the class of the object while the built-in samplers return plain Scores); threshold_at_* metrics whose targets are one shared float64 array; SINGLE_PASS_SAMPLE_THRESHOLD re-assigned at run time (3/5/8) and by_group on group-less objects, both replayed through the configuration the documentation equates them with; samplers and metrics as function / lambda / partial / bound method / callable object / dataclass instance; metrics scaled by 1e-8..1e6; NaN-producing metric; smoothing configurations; independent re-implementation of the documented formulas (C13) as reference; clause config_sequences: 2-4 bootstrap configurations in a row on one object (3-12 or 100-125 scores per class) against fresh equal objects under the same seed. Metrics that are the Python int 0 on the original object; metrics returning a transposed view / Fortran-ordered array; grouped samples rebuilt from their public arrays before the reference metric is applied.')
+RULE_EXTRA = ('objects of a user subclass of Scores that adds / redefines a metric (names resolve on the class of the object while the built-in samplers return plain Scores); threshold_at_* metrics whose targets are one shared float64 array; SINGLE_PASS_SAMPLE_THRESHOLD re-assigned at run time (3/5/8) and by_group on group-less objects, both replayed through the configuration the documentation equates them with; samplers and metrics as function / lambda / partial / bound method / callable object / dataclass instance; metrics scaled by 1e-8..1e6; NaN-producing metric; smoothing configurations; independent re-implementation of the documented formulas (C13) as reference; clause config_sequences: 2-4 bootstrap configurations in a row on one object (3-12 or 100-125 scores per class) against fresh equal objects under the same seed. Metrics that are the Python int 0 on the original object; metrics returning a transposed view / Fortran-ordered array; grouped samples rebuilt from their public arrays before the reference metric is applied. A sampler that refills one scratch object and returns it on every draw.')
